@@ -55,12 +55,6 @@ func runHist(t *testing.T, prof string) {
 	})
 }
 
-// isRapidInternal reports panics rapid uses for its own control flow (invalid data, stop test).
-func isRapidInternal(r any) bool {
-	s := fmt.Sprintf("%T", r)
-	return s == "rapid.invalidData" || s == "rapid.stopTest" || s == "rapid.testError"
-}
-
 // RunHCase replays a trace through the plain interpreter (no rapid).
 func RunHCase(c *HCase, st *Stats) (v *Violation) {
 	p := Profiles[c.Profile]
